@@ -234,6 +234,14 @@ func TestVerif_C18(t *testing.T) {
 				}
 				meta.MsgMeta.OriginalRcpts[rc] = o
 				stats["rewritten"]++
+				// the map is shared by all recipients of the message: the address the sender used for this
+				// one can itself be the rewriting target of another (delivered) recipient
+				if r.chance(30) && address.IsASCII(o) {
+					if _, isRcpt := meta.MsgMeta.OriginalRcpts[o]; !isRcpt && o != rc {
+						meta.MsgMeta.OriginalRcpts[o] = "someone.else@example.org"
+						stats["overlapping-aliases"]++
+					}
+				}
 			}
 		}
 		meta.To = nil
